@@ -550,6 +550,9 @@ fn c04(c: &mut Checker) {
         let exp = c.model(&doc);
         c.stats.bump("handover_positions_checked", exp.handovers.len() as u64);
         rules::m_handover("M-handover", &exp, &base, &mut out);
+        // a user function's error (try_from, validate, ...) reaches the error type at the position
+        // of the value it is about; an ancestor would still resolve, so this needs the interpreter
+        rules::m_reports("M-handover", &exp, &base, Strict::Full, &|cl| cl == "Foreign", &mut out);
     }
     c.record(out, &base_cfg, &base);
     if !c.found.is_empty() {
